@@ -440,7 +440,10 @@ func ParseList(b []byte) (*ListPage, error) {
 		return nil, err
 	}
 	p := &ListPage{Prefixes: o.Prefixes, Next: o.NextPageToken}
-	for _, it := range o.Items {
+	for i, it := range o.Items {
+		if it == nil {
+			return nil, fmt.Errorf("items[%d] of the listing is null", i)
+		}
 		p.Items = append(p.Items, ViewOf(it))
 	}
 	return p, nil
